@@ -123,29 +123,9 @@ func splitSeqRun(mk func() *modbus.Builder, fields []modbus.Field, targets []int
 		b := mk()
 		elems := make([]V, 0, len(targets))
 		for _, t := range targets {
-			reqs, err := bldBuild(b, t)
-			if err != nil {
-				tidss = append(tidss, L())
-				var ex V = L()
-				if t >= 4 {
-					ex = vErr(Bool(reqs == nil))
-				}
-				elems = append(elems, L(vErr(Bool(reqs == nil)), ex))
-				continue
-			}
-			sortRequests(reqs)
-			descs, tids := bldSplitDescs(fields, reqs)
-			tidss = append(tidss, vList(tids))
-			var ex V = L()
-			if t >= 4 {
-				xs := make([]V, 0, len(reqs))
-				for _, q := range reqs {
-					resp, perr := bldSimulate(t, ms, q)
-					xs = append(xs, bldExtractDesc(t, fields, q, resp, perr))
-				}
-				ex = vOk(vList(xs))
-			}
-			elems = append(elems, L(vOk(descs), ex))
+			elem, tids := bldBuildElem(b, fields, t, ms)
+			tidss = append(tidss, tids)
+			elems = append(elems, elem)
 		}
 		return vOk(vList(elems))
 	})
@@ -154,6 +134,68 @@ func splitSeqRun(mk func() *modbus.Builder, fields []modbus.Field, targets []int
 		ts[i] = I(t)
 	}
 	emit("split_seq", L(fieldVals(fields), vList(ts), vList(tidss), U(ms)), outcome)
+}
+
+// bldBuildElem: one build of b for target t, projected as one element of a "split_seq" outcome
+// (fields = what the Builder holds at this moment)
+func bldBuildElem(b *modbus.Builder, fields []modbus.Field, t int, ms uint64) (V, V) {
+	reqs, err := bldBuild(b, t)
+	if err != nil {
+		var ex V = L()
+		if t >= 4 {
+			ex = vErr(Bool(reqs == nil))
+		}
+		return L(vErr(Bool(reqs == nil)), ex), L()
+	}
+	sortRequests(reqs)
+	descs, tids := bldSplitDescs(fields, reqs)
+	var ex V = L()
+	if t >= 4 {
+		xs := make([]V, 0, len(reqs))
+		for _, q := range reqs {
+			resp, perr := bldSimulate(t, ms, q)
+			xs = append(xs, bldExtractDesc(t, fields, q, resp, perr))
+		}
+		ex = vOk(vList(xs))
+	}
+	return L(vOk(descs), ex), vList(tids)
+}
+
+// splitGrowCase: ONE Builder that grows between builds.  ops: a target 0..7 = build it; -1 = add the
+// next portion of [portions] with Add (one by one), -2 = with AddAll.  Every build is emitted as a
+// "split_seq" case of its own, judged against the field list the Builder holds at that moment.
+func splitGrowCase(initial []modbus.Field, portions [][]modbus.Field, ops []int, ms uint64) {
+	b := modbus.NewRequestBuilder("", 0)
+	b.AddAll(append([]modbus.Field(nil), initial...))
+	cur := append([]modbus.Field(nil), initial...)
+	next := 0
+	for _, op := range ops {
+		if op < 0 {
+			if next >= len(portions) {
+				continue
+			}
+			p := portions[next]
+			next++
+			if op == -1 {
+				for _, f := range p {
+					b.Add(&modbus.BField{Field: f})
+				}
+			} else {
+				b.AddAll(append([]modbus.Field(nil), p...))
+			}
+			cur = append(cur, p...)
+			continue
+		}
+		snapshot := append([]modbus.Field(nil), cur...)
+		var tids V = L()
+		t := op
+		outcome := guard(func() V {
+			elem, ti := bldBuildElem(b, snapshot, t, ms)
+			tids = ti
+			return vOk(L(elem))
+		})
+		emit("split_seq", L(fieldVals(snapshot), L(I(t)), L(tids), U(ms)), outcome)
+	}
 }
 
 func streamSplitSeq(seed uint64, thorough bool) {
